@@ -132,6 +132,13 @@ CHECKS = {
         "and every snapshot is validated by TLC.",
    note="concurrent runs are judged by the order-independent suffix-interleaving rule; races by the Go race detector",
    technique="TLA+ spec (LogRing.tla) + TLC-generated behaviours replayed into the Go code + TLC trace validation + race detector"),
+ "C19": dict(level="model_checking", ref="DESIGN.md §5 C19",
+   text="MerkleTree.tla defines the array layout (level sizes, offsets, last-node duplication, sibling positions) and, with symbolic "
+        "hashing, TLC checks for every n <= 40 (thorough 64) and every index that the path proves its leaf and no other; the real "
+        "trees for every n up to 300/600 and every index are recorded (array positions of path nodes, verification flags, foreign "
+        "leaves, layout rows, SetTree round trip) and validated by TLC against the layout operators.",
+   note="no TLC-generated behaviours: the input space (n, index) is enumerated directly",
+   technique="TLA+ layout/sibling-position oracle (MerkleTree.tla) model-checked by TLC + TLC trace validation of all (n, index)"),
 }
 
 NOT_APPLICABLE = []
